@@ -395,7 +395,14 @@ def _selection_checks(world, hist, pred, prop, reason_kinds):
 
 
 def check_C09(world, hist, pred):
-    return _selection_checks(world, hist, pred, "C09", ("tags",))
+    out = _selection_checks(world, hist, pred, "C09", ("tags",))
+    ce = hist.get("config_error") or ""
+    if world["cfg"].get("tagexpr") and ce.startswith("TagExpressionError") and not hist.get("system_exit"):
+        # every generated expression is valid in the dialect/protocol it is rendered for:
+        # rejecting it selects nothing instead of the matching scenarios
+        out.append(V("C09", "valid-expression-rejected", "protocol:%s" % (world["cfg"].get("tags_protocol") or "default"),
+                     tag_args=world["cfg"].get("tag_args"), error=ce[:200]))
+    return out
 
 
 def check_C10(world, hist, pred):
